@@ -316,6 +316,19 @@ func runC03(c *core.Ctx) {
 			c.Sample(map[string]any{"input": q(src)})
 		}
 	}
+	// 2b. every HTML5 named character reference (2 123 names) in every place where references are resolved: whatever a
+	// reference expands to ('<' plus a combining stroke, a line feed, a tab, two characters) must come out inert
+	for i, name := range wl.EntityNames {
+		if !c.Mine(i) {
+			continue
+		}
+		e := "&" + name
+		doc := "t " + e + "x\n\n# h " + e + "img src=x {title=\"" + e + "\"}\n\n[l](/u?" + e + " \"" + e + "y\") ![" + e + "z](/i)\n\n``` " + e + "\ncode\n```\n\n| " + e + " |\n|---|\n| `" + e + "` |\n\n[r" + e + "]\n\n[r" + e + "]: /d" + e + " '" + e + "'\n"
+		for _, sp := range []cfg.Spec{{Ext: cfg.ExtAll, Attribute: true, XHTML: true}, {Ext: cfg.ExtCore}, {Ext: cfg.ExtAll, AutoHeadingID: true, HardWraps: true}} {
+			c03Check(c, pool, sp, []byte(doc))
+		}
+		c.Count("named_references_in_all_contexts", 1)
+	}
 	// 3. attribute blocks on the constructs that accept them: allowed names, look-alikes that collide with an allowed name
 	// under the hash of the allow-list (wl.HashTwins), foreign names, hostile values
 	n3 := c.PerShard(c.N(120000, 4000000))
